@@ -356,7 +356,7 @@ func main() {
 	// fault mix never reached the situation the property is about
 	if exit == 0 && *tier == "thorough" {
 		for _, p := range sp.MandatoryProbes {
-			if a.probes[p] == 0 {
+			if a.probes[p] == 0 && a.faults[p] == 0 { // a fault kind that fired counts as reached
 				fmt.Fprintf(os.Stderr, "HARNESS-TROUBLE property=%s: mandatory probe %q was never hit\n", *prop, p)
 				exit = 2
 			}
